@@ -9,7 +9,7 @@
     the code would read at/after an end.  The loser trees enter through the interface [gtree_ok] / [utree_ok]
     (winner = live source with minimal head; stable: smallest index among equivalent; [gsize]/[usize]/[ukey] are the
     side conditions under which a tree is specified, collected in [side_ok]); the theorems hold for any trees
-    meeting it.  The last five theorems instantiate it with C09's model of tlx/container/loser_tree.hpp. *)
+    meeting it.  The last three theorems instantiate it with C09's model of tlx/container/loser_tree.hpp. *)
 From Coq Require Import List NArith Sorting.Sorted.
 From TLXV Require Import Common.Order C05.AutoDefs gen.Merge34_gen C05.StableMerge C05.Model C05.MergeFacts
      C05.MergeAdvProofs C05.AutoProofs C05.AutoSweep C05.LoserLoopProofs C05.UnguardedProofs C05.CombinedProofs C05.BaseProofs
@@ -119,48 +119,39 @@ Print Assumptions C05_reference_tournament.
 (* ---------------------------------------------------------------------------------------------------- *)
 (** * No abstract tree left: the loser trees are C09's model of tlx/container/loser_tree.hpp
       ([c9_mwm ltb dkey ptr] = multiway_merge_base over [LoserTree.lt_build / lt_min_source / lt_delete_min_insert],
-      [ptr] selecting the pointer- or copy-based classes, [dkey] = ValueType()). *)
+      [ptr] selecting the pointer- or copy-based classes, [dkey] = ValueType()).  The only assumption beyond the
+      property's own is k <= 2^30 ([Source = uint32_t] arithmetic of the trees must not wrap). *)
 
-(** C09's trees, driven as multiway_merge_loser_tree / _unguarded drive them, meet the interface: the guarded
-    classes for every input with 1 <= k <= 2^30; the unguarded classes under their documented precondition
-    "the sentinel is not less than any key handed in" ([c9_ukey]). *)
+(** C09's trees, driven as multiway_merge_loser_tree / _unguarded drive them, meet the interface for every input
+    with 1 <= k <= 2^30: the guarded classes by C09's [TInv], the unguarded classes by C09's general invariant
+    [UInv] (no bound on the keys: multiway_merge_loser_tree_combined hands the unguarded tree keys greater than
+    its padding key). *)
 Theorem C05_c09_trees_meet_the_interface :
   forall (A : Type) (ltb : A -> A -> bool) (dkey : A) (ptr : bool), SWO ltb ->
     gtree_ok ltb c9_size (c9g_init ltb dkey ptr) (c9g_min dkey) (c9g_dmi ltb dkey) (c9_grep ltb dkey ptr) /\
-    utree_ok ltb c9_size (c9_ukey ltb) (c9u_init ltb dkey ptr) (c9u_min dkey) (c9u_dmi ltb dkey) (c9_urep ltb dkey ptr).
+    utree_ok ltb c9_size (fun _ _ => True) (c9u_init ltb dkey ptr) (c9u_min dkey) (c9u_dmi ltb dkey) (c9_urep ltb dkey ptr).
 Proof. exact (fun A ltb dkey ptr H => conj (c9_gtree_ok ltb dkey ptr H) (c9_utree_ok ltb dkey ptr H)). Qed.
 Print Assumptions C05_c09_trees_meet_the_interface.
 
-(** MWMA_LOSER_TREE over the C09 trees (any k <= 2^30, both tree kinds, sentinels or none): the stable merge. *)
-Theorem C05_c09_loser_tree :
-  forall (A : Type) (ltb : A -> A -> bool), SWO ltb -> forall (dkey : A) (ptr : bool),
-  forall sentinels st sents len,
-    inputs_ok ltb st -> len <= total st -> (sentinels = true -> sent_ok ltb st sents) ->
-    (N.of_nat (length st) <= 2 ^ 30)%N ->
-    c9_mwm ltb dkey ptr true sentinels MWMA_LOSER_TREE st sents len =
-    Some (firstn len (gmerge ltb st), snd (msteps ltb len st)).
-Proof. exact (@c9_loser_tree_stable). Qed.
-Print Assumptions C05_c09_loser_tree.
-
-(** Every algorithm over the C09 trees, stable entry points.  [c9_covered]: k <= 2^30, and where an UNGUARDED
-    tree runs (k >= 5): MWMA_LOSER_TREE_SENTINEL - no sentinel greater than the first sequence's sentinel (e.g.
-    all equal); MWMA_LOSER_TREE_COMBINED - no element greater than the last element of sequence 0 (C09's key
-    precondition; the general case needs the lemma named in C05/C09Instance.v). *)
+(** Stable entry points, EVERY algorithm (MWMA_LOSER_TREE, _COMBINED, _SENTINEL, BUBBLE), both tree kinds,
+    sentinels or none, over the C09 trees: the first [len] elements of the stable merge, inputs left where that
+    merge leaves them, no read past an end. *)
 Theorem C05_c09_stable_variants :
   forall (A : Type) (ltb : A -> A -> bool), SWO ltb -> forall (dkey : A) (ptr : bool),
   forall sentinels alg st sents len,
     inputs_ok ltb st -> len <= total st -> (sentinels = true -> sent_ok ltb st sents) ->
-    c9_covered ltb alg sentinels st sents ->
+    (N.of_nat (length st) <= 2 ^ 30)%N ->
     c9_mwm ltb dkey ptr true sentinels alg st sents len =
     Some (firstn len (gmerge ltb st), snd (msteps ltb len st)).
 Proof. exact (@c9_mwm_stable). Qed.
 Print Assumptions C05_c09_stable_variants.
 
+(** All entry points (in particular the unstable ones) over the C09 trees. *)
 Theorem C05_c09_all_variants :
   forall (A : Type) (ltb : A -> A -> bool), SWO ltb -> forall (dkey : A) (ptr : bool),
   forall stable sentinels alg st sents len,
     inputs_ok ltb st -> len <= total st -> (sentinels = true -> sent_ok ltb st sents) ->
-    c9_covered ltb alg sentinels st sents ->
+    (N.of_nat (length st) <= 2 ^ 30)%N ->
     exists out st', c9_mwm ltb dkey ptr stable sentinels alg st sents len = Some (out, st') /\
       length out = len /\
       StronglySorted (sorted_rel ltb) out /\
@@ -168,17 +159,3 @@ Theorem C05_c09_all_variants :
       (forall x l y, In x out -> In l st' -> In y l -> ltb y x = false).
 Proof. exact (@c9_mwm_any). Qed.
 Print Assumptions C05_c09_all_variants.
-
-(** MWMA_LOSER_TREE_COMBINED (and everything else) over the C09 GUARDED tree and any unguarded tree meeting the
-    unconditional interface, e.g. the reference tournament: no condition on the keys. *)
-Theorem C05_c09_guarded_tree_any_unguarded :
-  forall (A : Type) (ltb : A -> A -> bool), SWO ltb -> forall (dkey : A) (ptr : bool),
-  forall UT ut_init ut_min ut_dmi urep,
-    utree_ok ltb (UT:=UT) (fun _ => True) (fun _ _ => True) ut_init ut_min ut_dmi urep ->
-  forall sentinels alg st sents len,
-    inputs_ok ltb st -> len <= total st -> (sentinels = true -> sent_ok ltb st sents) ->
-    (N.of_nat (length st) <= 2 ^ 30)%N ->
-    mwm_base ltb CT (c9g_init ltb dkey ptr) (c9g_min dkey) (c9g_dmi ltb dkey) UT ut_init ut_min ut_dmi
-             true sentinels alg st sents len = Some (firstn len (gmerge ltb st), snd (msteps ltb len st)).
-Proof. exact (@c9_guarded_any_unguarded_stable). Qed.
-Print Assumptions C05_c09_guarded_tree_any_unguarded.
